@@ -27,6 +27,7 @@ import (
 	"Havoc/pkg/agent"
 	"Havoc/pkg/profile"
 	"Havoc/pkg/service"
+	"Havoc/pkg/win32"
 
 	"pgregory.net/rapid"
 
@@ -133,8 +134,23 @@ type bodyGen struct {
 
 func (g *bodyGen) label(s string) string { g.n++; return fmt.Sprintf("%s%d", s, g.n) }
 
+// tableKeys: the keys of the lookup tables that TaskDispatch indexes with agent-supplied
+// integers (read from the tree under test at start-up, so entries added by a change are
+// drawn too), sorted because map order is random.
+var tableKeys = func() []uint32 {
+	var ks []uint32
+	for k := range win32.Protections {
+		ks = append(ks, uint32(k))
+	}
+	sort.Slice(ks, func(i, j int) bool { return ks[i] < ks[j] })
+	if len(ks) == 0 {
+		ks = []uint32{0}
+	}
+	return ks
+}()
+
 func (g *bodyGen) i32() uint32 {
-	return rapid.OneOf(rapid.SampledFrom([]uint32{0, 1, 2, 3, 7, 8, 9, 0x7fffffff, 0x80000000, 0xffffffff, outstanding, agentIDs[0], childID}), rapid.Uint32Range(0, 40), rapid.Uint32()).Draw(g.t, g.label("i"))
+	return rapid.OneOf(rapid.SampledFrom([]uint32{0, 1, 2, 3, 7, 8, 9, 0x7fffffff, 0x80000000, 0xffffffff, outstanding, agentIDs[0], childID}), rapid.Uint32Range(0, 40), rapid.Uint32(), rapid.SampledFrom(tableKeys)).Draw(g.t, g.label("i"))
 }
 
 func (g *bodyGen) text() string {
